@@ -17,7 +17,7 @@ RULE = (
     "case = operation sequence over {create, get, update activity, delete, advance clock, cleanup(max_age incl. exact idle-time boundaries +-1 and the default), "
     "list+mutate (add/remove/clear the returned dict), clear, initialize through ProtocolHandler, dispatch ping/unknown method with known/unknown/deleted session id} "
     "interpreted against the real store (time.time in the session module replaced by a controlled integer clock) and a dict model, compared after every step; "
-    "Hypothesis sequences up to 60 (quick) / 200 (thorough) steps plus all sequences of length<=4 (quick) / <=5 (thorough) over a 15-operation alphabet on a 3-session universe; "
+    "Hypothesis sequences up to 60 (quick) / 200 (thorough) steps, a Hypothesis RuleBasedStateMachine whose rules draw live sessions from a bundle (50 / 120 steps per run), plus all sequences of length<=4 (quick) / <=5 (thorough) over a 15-operation alphabet on a 3-session universe; "
     "non-trivial = sequence contains a cleanup at an exact boundary, or update/delete/get after delete/expiry, or a list mutation; distinct = distinct sequence"
 )
 ASSUMPTIONS = [
@@ -28,7 +28,7 @@ ASSUMPTIONS = [
 EXHAUSTIVE = {"quick": False, "thorough": False}
 META = {
     "text": "Model-based testing of the session store against a dict model with a controlled clock: generated operation histories (stateful generation as plain-data sequences that shrink as one value) and bounded-exhaustive short sequences; every return value and the whole store are compared after every step.",
-    "technique": "model-based (stateful) property testing: Hypothesis operation sequences + bounded-exhaustive short sequences vs a dict reference model",
+    "technique": "model-based (stateful) property testing: Hypothesis operation sequences + RuleBasedStateMachine with bundles + bounded-exhaustive short sequences vs a dict reference model",
 }
 
 
@@ -295,13 +295,99 @@ def job_exhaustive(col: Collector, seed: int, tier: str, shard: int, nshards: in
         col.exhaustive_parts.append(f"all sequences of length<={maxlen} over a {len(ALPHABET)}-operation alphabet after each of 3 two-session prefixes (plain, touched-before-second-create, created through initialize/ping)")
 
 
-JOBS = {"hyp": job_hyp, "exhaustive": job_exhaustive}
+def job_machine(col: Collector, seed: int, tier: str, shard: int, n: int, steps: int) -> None:
+    """Hypothesis rule-based state machine: rules pick their arguments from bundles of sessions that exist, so long
+    histories stay meaningful (updates / boundary cleanups / dispatches hit live sessions, deletions consume them,
+    a separate rule revisits gone ones).  Each run's history is handed, as plain data, to the same interpreter +
+    dict model as every other job (so a failure is a replayable case with the usual signature)."""
+    import hypothesis
+    from hypothesis import HealthCheck, Phase, settings
+    from hypothesis.stateful import Bundle, RuleBasedStateMachine, consumes, initialize, rule, run_state_machine_as_test
+
+    class SessionStore(RuleBasedStateMachine):
+        sessions = Bundle("sessions")
+
+        def __init__(self) -> None:
+            super().__init__()
+            self.ops: List[List[Any]] = []
+            self.n = 0
+
+        def _new(self) -> int:
+            self.n += 1
+            return self.n - 1
+
+        @initialize(target=sessions, ci=st.integers(0, 2), ver=st.integers(0, 3))
+        def first(self, ci, ver):
+            self.ops.append(["create", ci, ver])
+            return self._new()
+
+        @rule(target=sessions, ci=st.integers(0, 2), ver=st.integers(0, 3), meta=st.sampled_from([None, {}, {"k": "v"}, {"n": None}]))
+        def create(self, ci, ver, meta):
+            self.ops.append(["create", ci, ver] + ([meta] if meta is not None else []))
+            return self._new()
+
+        @rule(target=sessions, ver=st.sampled_from(VERSIONS + [None, "draft", 7]), ci=st.integers(0, 2))
+        def initialize_request(self, ver, ci):
+            self.ops.append(["init", ver, ci])
+            return self._new()
+
+        @rule(s=sessions)
+        def get(self, s):
+            self.ops.append(["get", s])
+
+        @rule(s=sessions)
+        def update(self, s):
+            self.ops.append(["update", s])
+
+        @rule(s=consumes(sessions))
+        def delete(self, s):
+            self.ops.append(["delete", s])
+
+        @rule(i=st.integers(0, 40), what=st.sampled_from(["get", "update", "delete"]))
+        def revisit_any(self, i, what):
+            self.ops.append([what, i if self.n else "unknown"])  # may be live, deleted or expired
+
+        @rule(dt=_dt)
+        def advance(self, dt):
+            self.ops.append(["advance", dt])
+
+        @rule(s=sessions, delta=st.sampled_from([-1, 0, 1]))
+        def cleanup_at_boundary_of(self, s, delta):
+            self.ops.append(["cleanup", ["idle_of", s, delta]])
+
+        @rule(age=st.sampled_from([0, 1, 60, 3600, "default"]))
+        def cleanup(self, age):
+            self.ops.append(["cleanup", age])
+
+        @rule(how=st.sampled_from(["add", "remove", "clear"]))
+        def list_and_mutate(self, how):
+            self.ops.append(["list_mutate", how])
+
+        @rule(s=sessions, method=st.sampled_from(["ping", "ping", "nope/method"]))
+        def dispatch(self, s, method):
+            self.ops.append(["dispatch", method, s])
+
+        def teardown(self):
+            if self.ops:
+                case = {"ops": self.ops}
+                o = check(case)
+                o.classes = o.classes + ("state-machine",)
+                col.record(case, o)
+
+    run_state_machine_as_test(
+        hypothesis.seed(seed * 1000 + 400 + shard)(SessionStore),
+        settings=settings(max_examples=n, stateful_step_count=steps, database=None, deadline=None, derandomize=False, report_multiple_bugs=False,
+                          suppress_health_check=list(HealthCheck), phases=[Phase.generate]),
+    )
+
+
+JOBS = {"hyp": job_hyp, "exhaustive": job_exhaustive, "machine": job_machine}
 
 
 def jobs(tier: str):
     if tier == "quick":
-        return [("hyp", {"shard": s, "n": 250, "max_len": 60}) for s in range(8)] + [("exhaustive", {"shard": s, "nshards": 8, "maxlen": 4}) for s in range(8)]
-    return [("hyp", {"shard": s, "n": 4000, "max_len": 200}) for s in range(8)] + [("exhaustive", {"shard": s, "nshards": 16, "maxlen": 5}) for s in range(16)]
+        return [("hyp", {"shard": s, "n": 250, "max_len": 60}) for s in range(8)] + [("exhaustive", {"shard": s, "nshards": 6, "maxlen": 4}) for s in range(6)] + [("machine", {"shard": s, "n": 150, "steps": 50}) for s in range(2)]
+    return [("hyp", {"shard": s, "n": 4000, "max_len": 200}) for s in range(8)] + [("exhaustive", {"shard": s, "nshards": 16, "maxlen": 5}) for s in range(16)] + [("machine", {"shard": s, "n": 3000, "steps": 120}) for s in range(4)]
 
 
 def shrink(signature: str, seed: int):
